@@ -112,6 +112,18 @@ class LibMixin:
             lv.set(self, st, PtrV(z3.If(ok, found, cur.oid), tt.elem()))
             self.frame_spec = saved
             return ok
+        if callee == "errors.Join":
+            self.models_used.add("errors.Join (nil iff every argument is nil, otherwise a fresh non-nil error wrapping the non-nil arguments)")
+            et = self.prog.types[self.T(e).id]
+            vals = []
+            for a in args:
+                v = self.ev_assign(a, self.T(e), st)
+                if isinstance(v, IfaceV):
+                    vals.append(v)
+            o = self.fresh_rid()
+            self.wraps[o.as_long()] = list(vals)
+            anyerr = zor(*[v.tag != rid(0) for v in vals]) if vals else FALSE
+            return IfaceV(z3.If(anyerr, rid(ERR_TAG), rid(0)), z3.If(anyerr, o, rid(0)))
         if callee == "errors.Is":
             self.models_used.add("errors.Is (identity or recorded %w chain)")
             a = self.ev(args[0], st)
@@ -189,6 +201,16 @@ class LibMixin:
             arr = st.heap.get(key)
             st.heap[key] = z3.Store(arr, lv.oid, TRUE)
             return TupleV([])
+        if callee in ("math.IsNaN", "math.IsInf"):
+            self.models_used.add(callee + " (IEEE-754 classification)")
+            x = self.ev(args[0], st)
+            fx = z3.fpBVToFP(x, z3.Float64())
+            if callee == "math.IsNaN":
+                return z3.fpIsNaN(fx)
+            sgn = self.ev(args[1], st)
+            pos = z3.And(z3.fpIsInf(fx), z3.Not(z3.fpIsNegative(fx)))
+            neg = z3.And(z3.fpIsInf(fx), z3.fpIsNegative(fx))
+            return z3.Or(z3.And(sgn >= 0, pos), z3.And(sgn <= 0, neg))
         if callee in ("math.Float64bits", "math.Float64frombits", "math.Float32bits", "math.Float32frombits"):
             self.models_used.add(callee + " (identity on bit patterns)")
             return self.ev(args[0], st)
@@ -237,5 +259,5 @@ class LibMixin:
         return zand(a.tag != rid(0), zor(*alts))
 
 
-LIB_PURE = {"strconv.ParseInt", "strconv.ParseUint", "strconv.ParseFloat", "strconv.ParseBool", "strconv.Atoi", "errors.As", "slices.Grow", "sync.(*Once).Do", "errors.New", "fmt.Errorf", "errors.Is", "bytes.Clone", "slices.Clone", "math.Float64bits", "math.Float64frombits",
+LIB_PURE = {"math.IsNaN", "math.IsInf", "errors.Join", "strconv.ParseInt", "strconv.ParseUint", "strconv.ParseFloat", "strconv.ParseBool", "strconv.Atoi", "errors.As", "slices.Grow", "sync.(*Once).Do", "errors.New", "fmt.Errorf", "errors.Is", "bytes.Clone", "slices.Clone", "math.Float64bits", "math.Float64frombits",
             "math.Float32bits", "math.Float32frombits"}
